@@ -26,7 +26,7 @@ SHARDS = {"quick": 8, "thorough": 16}
 TIMEOUT = {"quick": 1200, "thorough": 7200}
 RULE = ("Programs = random well-typed expression trees (depth <= 6) over Exp, Log, Inv, @, Act3, Act4, Adj, AdjT, Retr, +, "
         "matrix, Jinvp (rotation >= 0.1 rad), algebra +/scale, with 1-4 leaves of mixed kinds (group / algebra / R^3 / R^4), "
-        "leaf modes identity / tiny (down to eps/2) / generic / large rotation (<= pi-0.45), broadcasting lshapes, random "
+        "leaf modes identity / tiny (down to eps/2) / thin (rotation 1.5eps..1e-5 with O(1) translation and scale) / generic / large rotation (<= pi-0.45), broadcasting lshapes, random "
         "cotangents; plus every operator alone at each mode for all four groups. One case = (program, leaf values, "
         "cotangent); distinct = distinct (program text, leaf bits); trivial = programs discarded by a guard (Log/Jinvp input "
         "within 0.3 rad of pi, sim3 truncation bound > 1e-3).")
@@ -355,10 +355,10 @@ def run(ck):
     cases = []
     for k in progs.GROUPS:
         for (op, a, r) in UNARY:
-            for mode in ("identity", "tiny", "generic", "large"):
+            for mode in ("identity", "tiny", "thin", "thin", "generic", "large"):
                 cases.append((k, op, (a,), r, mode))
         for (op, a, b, r) in BINARY:
-            for mode in ("identity", "tiny", "generic", "large"):
+            for mode in ("identity", "tiny", "thin", "thin", "generic", "large"):
                 cases.append((k, op, (a, b), r, mode))
     reps = 4 if thorough else 1
     ci = 0
@@ -369,7 +369,7 @@ def run(ck):
                 continue
             types = [typ_of(c, k) for c in args]
             tree = Node(op, [Leaf(i, t) for i, t in enumerate(types)], typ_of(r, k))
-            if op == "Jinvp" and mode in ("identity", "tiny"):
+            if op == "Jinvp" and mode in ("identity", "tiny", "thin"):
                 continue        # outside C04's stated domain (zero rotation)
             lsh = [(), ()] if rep % 2 == 0 else lshapes_for(rng, 2)
             leaves = []
@@ -377,8 +377,15 @@ def run(ck):
                 md = mode
                 if op == "Jinvp" and i == 0:
                     md = "large" if mode == "large" else "generic"
-                if k == "Sim3" and op in ("Log", "Jinvp", "Exp", "Retr", "add") and mode in ("generic", "large"):
+                if k == "Sim3" and op in ("Log", "Jinvp", "Exp", "Retr", "add") and mode in ("generic", "large", "thin"):
                     # keep |ad xi| small enough for the documented truncation to stay below 1e-3
+                    if mode == "thin" and t[0] in ("G", "A"):
+                        x = progs.make_leaf(rng, t, lsh[i], dt, "thin")
+                        r = x.tensor().clone()
+                        r[..., :3] *= 0.2
+                        r[..., -1] = r[..., -1] ** 0.3 if t[0] == "G" else r[..., -1] * 0.3
+                        leaves.append(pp.LieTensor(r, ltype=x.ltype))
+                        continue
                     x = progs.make_leaf(rng, t, lsh[i], dt, "generic")
                     if t[0] == "G":
                         x = pp.LieTensor(lie.random_group(k, rng, max(1, int(np.prod(lsh[i]))), dt, max_angle=0.5, sigma_max=0.2,
@@ -409,7 +416,7 @@ def run(ck):
         tree = progs.gen_tree(rng, roots[int(rng.integers(len(roots)))], depth, types)
         if isinstance(tree, Leaf) or len(types) > 4:
             continue
-        mode = ["generic", "generic", "generic", "tiny", "identity", "large"][int(rng.integers(6))]
+        mode = ["generic", "generic", "generic", "tiny", "identity", "large", "thin"][int(rng.integers(7))]
         lsh = lshapes_for(rng, len(types))
         leaves = []
         for t, s in zip(types, lsh):
